@@ -997,6 +997,94 @@ func run(r *hx.Run) error {
 			}
 			rec(nil)
 		}
+		// deletions that bring two parts of a grapheme together (X mid Y with X+Y one grapheme): every way either
+		// widget can delete the middle, then probes of the cursor and of the cached count (End/Left/letter, …)
+		{
+			pairs := [][2][]int{{{6}, {7}}, {{8, 4}, {9}}, {{11}, {12}}, {{0}, {3}}, {{10}, {5}}, {{11, 12}, {13}}, {{8}, {17}}}
+			mids := [][]int{{0}, {14}, {0, 1}}
+			ctxs := [][2][]int{{nil, nil}, {{1}, nil}, {nil, {1}}, {{6, 7}, {15}}}
+			probes := [][]string{{"End", "Left", "#b"}, {"Home", "Right", "#b"}, {"Left", "#b", "End"}, {"Right", "Delete", "#b"},
+				{"End", "BackSpace", "Left"}, {"Ctrl+e", "Ctrl+b", "Ctrl+b", "#b"}}
+			for _, pr := range pairs {
+				for _, mid := range mids {
+					for _, cx := range ctxs {
+						var start []int
+						start = append(start, cx[0]...)
+						start = append(start, pr[0]...)
+						start = append(start, mid...)
+						start = append(start, pr[1]...)
+						start = append(start, cx[1]...)
+						atomMode = true
+						before := len(vaxis.Characters(str(append(append([]int(nil), cx[0]...), pr[0]...))))
+						nmid := len(mid)
+						for _, kind := range []string{"tfc", "tic"} {
+							// the deletions: from behind the middle with BackSpace (x nmid), from before it with Delete, Ctrl+w (tic)
+							dels := [][][]string{}
+							mk := func(name string) []string {
+								if kind == "tfc" {
+									return tfKeyOp(name, false)
+								}
+								return tiKeyOp(name)
+							}
+							var bs, dl [][]string
+							for i := 0; i < nmid; i++ {
+								bs = append(bs, mk("BackSpace"))
+								dl = append(dl, mk("Delete"))
+							}
+							dels = append(dels, append([][]string{{"@", strconv.Itoa(before + nmid)}}, bs...))
+							dels = append(dels, append([][]string{{"@", strconv.Itoa(before)}}, dl...))
+							if kind == "tic" {
+								dels = append(dels, [][]string{{"@", strconv.Itoa(before + nmid)}, mk("Ctrl+w")})
+							} else {
+								var pd [][]string
+								for i := 0; i < nmid; i++ {
+									pd = append(pd, []string{"dell"})
+								}
+								dels = append(dels, append([][]string{{"@", strconv.Itoa(before + nmid)}}, pd...))
+							}
+							for _, del := range dels {
+								for _, probe := range probes {
+									var ops [][]string
+									for _, o := range del {
+										if o[0] == "@" {
+											pos, _ := strconv.Atoi(o[1])
+											if kind == "tfc" {
+												ops = append(ops, []string{"cur", o[1]})
+											} else {
+												ops = append(ops, tiKeyOp("Home"))
+												for i := 0; i < pos; i++ {
+													ops = append(ops, tiKeyOp("Right"))
+												}
+											}
+											continue
+										}
+										ops = append(ops, o)
+									}
+									for _, p := range probe {
+										switch {
+										case p == "#b" && kind == "tfc":
+											ops = append(ops, tfTextOp([]int{1}))
+										case p == "#b":
+											ops = append(ops, tiTextOp([]int{1}))
+										default:
+											ops = append(ops, mk(p))
+										}
+									}
+									if kind == "tfc" {
+										ops = append(ops, []string{"draw", "9", "1"})
+									} else {
+										ops = append(ops, []string{"draw", "30", "-"})
+									}
+									runCase(r, kind, next(), start, ops)
+									r.Count("gen:merge-by-deletion")
+								}
+							}
+						}
+					}
+				}
+			}
+		}
+
 		// random sequences over all atoms
 		nRandC := 600
 		if r.Thorough {
